@@ -421,6 +421,7 @@ fn case_rule(id: &str, v: &serde_json::Value, ctx: &mut Ctx) -> Option<Out> {
     let reads = flag(v, "reads")?;
     let validate = flag(v, "validate")?;
     let trees = flag(v, "trees")?;
+    let otrees = flag(v, "otrees")?;
 
     let y: serde_yaml::Value = match serde_yaml::from_str(text) {
         Ok(y) => y,
@@ -459,6 +460,7 @@ fn case_rule(id: &str, v: &serde_json::Value, ctx: &mut Ctx) -> Option<Out> {
     m.bool(reads);
     m.bool(validate);
     m.bool(trees);
+    m.bool(otrees);
     m.close();
     oracle::render(&mut m, &inp, &mut ctx.cache);
     m.close();
@@ -539,6 +541,7 @@ fn case_rule(id: &str, v: &serde_json::Value, ctx: &mut Ctx) -> Option<Out> {
     }
 
     let mut reads_part = Sx::new();
+    let mut otree_part = Sx::new();
     for n in &sw {
         let n = *n;
         let optimised = guarded(|| {
@@ -554,6 +557,30 @@ fn case_rule(id: &str, v: &serde_json::Value, ctx: &mut Ctx) -> Option<Out> {
         if reads {
             reads_part.head("reads");
             reads_part.int(n);
+        }
+        if otrees {
+            // the optimised trees themselves (the optimiser is deterministic since fix D22)
+            otree_part.head("otree");
+            otree_part.int(n);
+            match &optimised {
+                None => otree_part.atom("x"),
+                Some(r) => {
+                    otree_part.head("cond");
+                    sexp::expr(&mut otree_part, &r.detection.expression);
+                    otree_part.close();
+                    otree_part.head("ids");
+                    let mut names: Vec<&String> = r.detection.identifiers.keys().collect();
+                    names.sort();
+                    for name in names {
+                        otree_part.open();
+                        otree_part.str(name);
+                        sexp::expr(&mut otree_part, &r.detection.identifiers[name]);
+                        otree_part.close();
+                    }
+                    otree_part.close();
+                }
+            }
+            otree_part.close();
         }
         match optimised {
             None => w.atom("x"),
@@ -593,6 +620,9 @@ fn case_rule(id: &str, v: &serde_json::Value, ctx: &mut Ctx) -> Option<Out> {
     }
     if reads && !reads_part.buf.is_empty() {
         w.atom(&reads_part.buf);
+    }
+    if otrees && !otree_part.buf.is_empty() {
+        w.atom(&otree_part.buf);
     }
 
     if validate {
